@@ -4,8 +4,8 @@
 import json, os, shutil, sys
 pid, k, needs, caught = sys.argv[1], sys.argv[2], sys.argv[3], sys.argv[4]
 rnd = os.environ.get("ROUND", "1")
-src = f"/tmp/out-{pid}/m{k}" if rnd == "1" else f"/tmp/o2-{pid}/m{k}"
-dst = f"/verif/seeded/{pid}-m{k}" if rnd == "1" else f"/verif/seeded/{pid}-r2m{k}"
+src = f"/tmp/out-{pid}/m{k}" if rnd == "1" else f"/tmp/o{rnd}-{pid}/m{k}"
+dst = f"/verif/seeded/{pid}-m{k}" if rnd == "1" else f"/verif/seeded/{pid}-r{rnd}m{k}"
 os.makedirs(dst, exist_ok=True)
 patch = "patch.h2.diff" if os.path.exists(f"{src}/patch.h2.diff") else "patch.diff"
 shutil.copy(f"{src}/{patch}", f"{dst}/patch.diff")
@@ -27,6 +27,7 @@ meta = {
     "confirmed": "tools/verify_seeded.sh in the scratch worktree: existing suite 158/158 passes with the patch; demonstration fails with the patch and passes without it",
     "ran": f"tools/try_seeded.sh {dst}/patch.diff {pid}  (git -C /repo apply; ./check {pid} quick; git -C /repo checkout)",
     "caught_by": caught,
+    "check_with": os.environ.get("CHECK_WITH", pid).split(),
 }
 json.dump(meta, open(f"{dst}/meta.json", "w"), indent=1)
 print("kept", dst)
